@@ -224,6 +224,11 @@ def run(ctx) -> None:
     from .c18 import check_inputs_from_resolver
 
     check_inputs_from_resolver(ctx, "C01.R1")
+    # "... ending with the signature default as written": what a node receives for a defaulted parameter is a deep copy of
+    # the default, whatever its type, so no execution sees what an earlier one did to it
+    from .c18 import check_default_copy_is_deep
+
+    check_default_copy_is_deep(ctx, "C01.R1")
 
     # every declared output that was produced is returned with the value it holds: the only values withheld are the
     # ordering signals, recognised by identity with the module's sentinel
